@@ -559,6 +559,143 @@ class ScanReadLoopSorted(ScanReadLoop):
 SCAN_READ_UNITS = [ScanReadLoop((2, 1, 2)), ScanReadLoopSorted((2, 1, 2)), ScanReadLoop((1, 3))]
 
 
+# ---------------------------------------------------------------- scan_file_times: the file loop for ANY number of files
+# Induction over `for fname in files` (rule implemented by SymFileList.pv_for below):
+#   invariant I(k):  all_frames == frames(file_0) ++ ... ++ frames(file_{k-1})  and  num_frames == {file_i: count_i, i < k}
+#   (1) I(0): the two accumulators are empty when the loop is reached (the statements before the loop are executed);
+#   (2) from an ARBITRARY iteration k whose accumulators are ghost objects standing for I(k), one execution of the REAL
+#       loop body opens exactly file_k, extends the frame list once by every frame of file_k in file order (a symbolic
+#       number count_k >= 0 of them) and stores count_k under file_k: that is I(k + 1) by the definition of concatenation.
+# Assumed: Python's `for x in <list>` runs the body once per element, in order; the loop has no break/else (checked).
+# The statement after the loop (element-wise conversion to datetime64) stays verified for fixed shapes only.
+
+
+class LoopProved:
+    def __init__(self, what):
+        self.what = what
+
+
+class SeqGhost(ModelObject):
+    """The frame list at an arbitrary iteration (stands for the concatenation of the earlier files' frames); records
+    what the body does to it."""
+
+    def __init__(self):
+        self.ops = []
+
+    def pv_getattr(self, cx, name):
+        me = self
+        if name in ("extend", "append"):
+
+            def f(interp, x):
+                me.ops.append((name, x))
+
+            f._pyvc_model = True
+            return f
+        raise Unsupported(f"the loop body uses the frame list through .{name} (only extend/append are modelled)")
+
+
+class MapGhost(ModelObject):
+    """The frame-count table at an arbitrary iteration; records the stores of the body."""
+
+    def __init__(self):
+        self.stores = []
+
+    def pv_setitem(self, cx, idx, val):
+        self.stores.append((idx, val))
+
+
+class FileK:
+    """the k-th element of `files` (an opaque, hashable file name)"""
+
+    def __repr__(self):
+        return "files[k]"
+
+
+class SymFileList(ModelObject):
+    """`files`: a list of symbolic length."""
+
+    def pv_for(self, interp, st, env, mod):
+        import ast
+
+        cx = interp.cx
+        if st.orelse or not isinstance(st.target, ast.Name):
+            raise Unsupported("file loop with an else clause or a structured target")
+        for n in ast.walk(ast.Module(body=st.body, type_ignores=[])):
+            if isinstance(n, (ast.Break, ast.Continue, ast.Return, ast.While, ast.For, ast.Yield)):
+                raise Unsupported("control flow inside the file loop")
+        from pyvc.interp import PvDict
+
+        lists = [nm for nm, v in env.items() if isinstance(v, list)]
+        maps = [nm for nm, v in env.items() if isinstance(v, dict) and nm != "__class__"]
+        if len(lists) != 1 or len(maps) != 1:
+            raise Unsupported("file loop: expected one list and one dict accumulator before the loop")
+        lname, mname = lists[0], maps[0]
+        cx.oblige("loop invariant holds on entry: the frame list is empty before the first file", len(env[lname]) == 0, kind="invariant")
+        cx.oblige("loop invariant holds on entry: the frame-count table is empty before the first file", len(env[mname]) == 0 and not getattr(env[mname], "sym_stores", []), kind="invariant")
+        k = z3.Int("iteration_k")
+        cx.assume(k >= 0)
+        c = z3.Int("nframes_of_file_k")
+        cx.assume(c >= 0)
+        ft = z3.Function("frame_time_of_file", z3.IntSort(), z3.IntSort(), z3.IntSort())
+        fk = FileK()
+        seq, mp = SeqGhost(), MapGhost()
+        env[lname], env[mname] = seq, mp
+        env[st.target.id] = fk
+        opened = []
+        cx.ghost["scan_files"] = dict(arrays={fk: Arr((c,), lambda j: ft(k, V.to_z3(j)), "int")}, opened=opened)
+        interp.exec_block(st.body, env, mod)
+        cx.oblige("C20/C03 loop invariant preserved: iteration k opens exactly the k-th file, once", opened == [fk], kind="invariant")
+        one = len(seq.ops) == 1 and seq.ops[0][0] == "extend" and isinstance(seq.ops[0][1], Arr) and seq.ops[0][1].ndim == 1
+        cx.oblige("C20/C03 loop invariant preserved: the frame list is extended exactly once, by a sequence", one, kind="invariant")
+        if one:
+            new = seq.ops[0][1]
+            cx.oblige("C20/C03 loop invariant preserved: as many entries are added as the k-th file has frames", V.to_z3(V.s_cmp("==", new.shape[0], c)), kind="invariant")
+            cx.oblige_item("C20/C03 loop invariant preserved: the j-th added entry is the j-th frame time of the k-th file (every frame, in file order)", ForallP(c, lambda j: V.to_z3(V.s_cmp("==", new.at(j), ft(k, j)))), kind="invariant")
+        st1 = len(mp.stores) == 1 and mp.stores[0][0] is fk
+        cx.oblige("C03 loop invariant preserved: exactly one entry is stored in the frame-count table, under the k-th file", st1, kind="invariant")
+        if st1:
+            cx.oblige("C03 loop invariant preserved: num_frames[file_k] == number of frames of the k-th file", V.to_z3(V.s_cmp("==", mp.stores[0][1], c)), kind="invariant")
+        from pyvc.interp import ReturnSignal
+
+        raise ReturnSignal(LoopProved("file loop"))
+
+
+class ScanReadLoopInductive(Spec):
+    """scan_file_times, the file-reading loop for ANY number of files with ANY number of frames each (induction, see the
+    comment above): all_frames is the concatenation of the ocean_time of all files in the order given and num_frames maps
+    every file to its frame count."""
+
+    func = "ladim.ROMS.scan_file_times"
+    name = "ROMS.scan_file_times[file loop, induction over the files]"
+    properties = ("C20", "C03")
+    inline = ()
+
+    def __init__(self):
+        def dataset(interp, fname, *a, **kw):
+            st = interp.cx.ghost["scan_files"]
+            if fname not in st["arrays"]:
+                interp.cx.oblige("the loop body opens the file of its own iteration", False, kind="invariant")
+                raise Unsupported("Dataset() of something else than the loop's file")
+            return TimeFile(st["arrays"][fname], st["opened"], fname)
+
+        def num2date(interp, times, units, *a, **kw):
+            return times  # assumed: an order-preserving conversion of the time values (seconds kept as integers)
+
+        self.externals = {"netCDF4.Dataset": dataset, "cftime.num2date": num2date, "netCDF4.num2date": num2date}
+
+    def inputs(self, cx):
+        return Args(files=SymFileList())
+
+    def model(self, cx, a):
+        return NotImplemented
+
+    def ensures(self, cx, a, result):
+        return [("the function reaches a loop over `files` (verified by induction; what follows the loop is verified by the ordering-check slice and the fixed-shape units)", isinstance(result, LoopProved))]
+
+
+SCAN_READ_UNITS = SCAN_READ_UNITS + [ScanReadLoopInductive()]
+
+
 class GridInitMissingFile(GridInit):
     """A grid file that cannot be opened is a start-up error (SystemExit), not a traceback later on."""
 
